@@ -94,8 +94,8 @@ def validate_part(chk, tier):
         if any(len(set(t.deps)) != len(t.deps) for t in tasks):
             continue
         cases.append(Case([Task(t.status, t.deps, t.kind, pkg=["", "p0", ""][i % 3] if i < small else "") for i, t in enumerate(tasks)]))
-    if tier == "quick":
-        cases = cases[:: max(1, len(cases) // 350)]
+    # all digraphs on 3 names + an undefined one with every listing order are ~275 000 projects: a stride through them
+    cases = cases[:: max(1, len(cases) // (350 if tier == "quick" else 8000))]
     for _ in range(300 if tier == "quick" else 3000):
         n = rng.randint(2, 8)
         tasks = rand_dag(rng, n, p_edge=rng.choice([0.15, 0.3, 0.5]))
